@@ -94,12 +94,14 @@ type c06Case struct {
 	post       bool
 	acsService bool
 	nEndpoints int
-	mixed      bool // endpoints of other bindings (Redirect, Artifact) at their own locations among the POST ones
+	idpKey     string // the key pair the IdP is configured with in this case (the IdP object lives through all cases and is reconfigured in place: key roll-over)
+	extras     int    // optional request content that must not change the response (as in C05): 1 Conditions with a foreign AudienceRestriction, 2 Subject, 4 Scoping, 8 Extensions
+	mixed      bool   // endpoints of other bindings (Redirect, Artifact) at their own locations among the POST ones
 	faultFirst bool // another session's response to a client whose connection fails part-way is served first
 }
 
 func (k c06Case) String() string {
-	return fmt.Sprintf("initiated=%v byIndex=%v byDefault=%v encrypt=%v signer=%v method=%q interm=%v reqOffset=%v D=%v S=%v post=%v attrsvc=%v endpoints=%d mixed=%v faultFirst=%v", k.initiated, k.byIndex, k.byDefault, k.encrypt, k.signer, shortAlg(k.method), k.interm, k.reqOffset, k.tol.D, k.tol.S, k.post, k.acsService, k.nEndpoints, k.mixed, k.faultFirst)
+	return fmt.Sprintf("initiated=%v byIndex=%v byDefault=%v encrypt=%v signer=%v method=%q interm=%v reqOffset=%v D=%v S=%v post=%v attrsvc=%v endpoints=%d mixed=%v faultFirst=%v idpKey=%s extras=%d", k.initiated, k.byIndex, k.byDefault, k.encrypt, k.signer, shortAlg(k.method), k.interm, k.reqOffset, k.tol.D, k.tol.S, k.post, k.acsService, k.nEndpoints, k.mixed, k.faultFirst, k.idpKey, k.extras)
 }
 
 func runC06(c *core.Ctx) {
@@ -116,6 +118,10 @@ func runC06(c *core.Ctx) {
 		k := c06Case{initiated: r.Intn(5) == 0, byIndex: r.Intn(3) == 0, byDefault: r.Intn(4) == 0, encrypt: r.Intn(2) == 0, signer: r.Intn(3) == 0, method: methods[i%5], interm: r.Intn(4) == 0, tol: tol, post: r.Intn(2) == 0, acsService: r.Intn(2) == 0, nEndpoints: 1 + r.Intn(4)}
 		k.mixed = r.Intn(3) == 0
 		k.faultFirst = r.Intn(6) == 0
+		k.idpKey = []string{"idp_s1", "idp_s1", "idp_s2"}[r.Intn(3)]
+		if r.Intn(3) == 0 {
+			k.extras = r.Intn(16)
+		}
 		offs := []time.Duration{0, -tol.D + time.Millisecond, -tol.D / 2, -2 * tol.S, -tol.S - time.Millisecond, -tol.S + time.Millisecond, 10 * time.Second}
 		k.reqOffset = offs[r.Intn(len(offs))]
 		if k.reqOffset < -tol.D { // would be stale: keep inside the window
@@ -132,8 +138,18 @@ func c06Run(c *core.Ctx, k c06Case) {
 	c.Journal("C06 " + k.String())
 	rnd := fx.NewRecReader(c.Rng.Int63())
 	saml.RandReader = rnd
-	w := so.NewIDPWorld()
-	idpKP := fx.K("idp_s1")
+	if c06LiveWorld == nil { // one IdP object per process: key, certificate, signer, method and chain are changed in place between cases
+		c06LiveWorld = so.NewIDPWorld()
+	}
+	w := c06LiveWorld
+	for id := range w.Registry {
+		delete(w.Registry, id)
+	}
+	if k.idpKey == "" {
+		k.idpKey = "idp_s1"
+	}
+	idpKP := fx.K(k.idpKey)
+	w.IDP.Key, w.IDP.Signer, w.IDP.Certificate = idpKP.Key, nil, idpKP.Cert
 	var cs *countingSigner
 	if k.signer {
 		cs = &countingSigner{inner: idpKP.Key}
@@ -141,8 +157,9 @@ func c06Run(c *core.Ctx, k c06Case) {
 		w.IDP.Signer = cs
 	}
 	w.IDP.SignatureMethod = k.method
+	w.IDP.Intermediates = nil
 	if k.interm {
-		w.IDP.Intermediates = []*x509.Certificate{fx.K("idp_s2").Cert}
+		w.IDP.Intermediates = []*x509.Certificate{fx.K("idp_e").Cert}
 	}
 	// registry metadata for this SP: several ACS endpoints
 	spKP := fx.K("sp_rsa2048")
@@ -231,7 +248,26 @@ func c06Run(c *core.Ctx, k c06Case) {
 		if !ok {
 			wantEP = epTriple{} // no usable endpoint: nothing may be emitted
 		}
-		raw := so.Bytes(ar.Element())
+		arEl := ar.Element()
+		if k.extras&1 != 0 { // the requester's own conditions: they describe what the requester wants, not whom the IdP answers
+			cd := arEl.CreateElement("saml:Conditions")
+			cd.CreateAttr("NotOnOrAfter", now.Add(24*time.Hour).Format("2006-01-02T15:04:05Z"))
+			cd.CreateElement("saml:AudienceRestriction").CreateElement("saml:Audience").SetText("https://someone-else.example/metadata")
+		}
+		if k.extras&2 != 0 {
+			sj := arEl.CreateElement("saml:Subject")
+			sj.CreateElement("saml:NameID").SetText("⟨R.requested-subject⟩")
+		}
+		if k.extras&4 != 0 {
+			sg := arEl.CreateElement("samlp:Scoping")
+			sg.CreateElement("samlp:RequesterID").SetText("https://someone-else.example/metadata")
+		}
+		if k.extras&8 != 0 {
+			x := arEl.CreateElement("samlp:Extensions").CreateElement("x:Hint")
+			x.CreateAttr("xmlns:x", "urn:example:ext")
+			x.CreateAttr("Recipient", "https://someone-else.example/acs")
+		}
+		raw := so.Bytes(arEl)
 		serve = func(rw http.ResponseWriter) bool {
 			var hr *http.Request
 			if k.post {
@@ -469,3 +505,5 @@ func (f *failingWriter) Write(b []byte) (int, error) {
 	f.failed = true
 	return n, errors.New("injected: connection reset by peer")
 }
+
+var c06LiveWorld *so.IDPWorld
